@@ -680,8 +680,18 @@ pub fn cli_export_strategy() -> BoxedStrategy<ExportCase> {
 pub fn cli_export_check(c: &ExportCase, st: &mut Stats) -> CheckResult {
     let text = c.adf.text();
     let input = write_input(&text)?;
-    let export = scratch_file("json");
-    let _ = std::fs::remove_file(&export);
+    // the export target lives in a directory of its own, next to files that look like earlier exports,
+    // temporary or backup files of the same stem: none of them may be touched
+    let dir = scratch_dir().join(format!("exp{}", COUNTER.fetch_add(1, Ordering::Relaxed)));
+    std::fs::create_dir_all(&dir).map_err(|e| e.to_string())?;
+    let export = dir.join("model.json");
+    let decoys: Vec<(PathBuf, String)> = ["model.tmp", "model.json.tmp", "model.bak", "model.json~", ".model.json.swp", "model", "model.json.new"]
+        .iter()
+        .map(|n| (dir.join(n), format!("earlier export kept as {n}\n")))
+        .collect();
+    for (p, content) in &decoys {
+        std::fs::write(p, content).map_err(|e| e.to_string())?;
+    }
     if let Some(e) = &c.existing {
         std::fs::write(&export, e).map_err(|e| e.to_string())?;
     }
@@ -773,7 +783,18 @@ pub fn cli_export_check(c: &ExportCase, st: &mut Stats) -> CheckResult {
             }
         }
     })();
-    cleanup(&[&input, &export]);
+    let mut res = res;
+    if res.is_ok() {
+        for (p, content) in &decoys {
+            match std::fs::read_to_string(p) {
+                Ok(now) if &now == content => {}
+                Ok(_) => res = Err(format!("--export model.json modified the existing neighbouring file {}", p.display())),
+                Err(_) => res = Err(format!("--export model.json removed the existing neighbouring file {}", p.display())),
+            }
+        }
+    }
+    cleanup(&[&input]);
+    let _ = std::fs::remove_dir_all(&dir);
     let imported = res?;
     st.count("process_runs", if imported { 4 } else { 2 });
     st.label(if c.existing.is_some() { "export:file-exists" } else { "export:fresh+import" });
